@@ -622,7 +622,10 @@ pub fn parent<P: Prop>(tier: Tier, seed: u64) -> i32 {
         let rf: ReplayFile =
             serde_json::from_str(&std::fs::read_to_string(&f).unwrap()).unwrap();
         regress_run += 1;
-        let outcome = replay_in_child(&f, true);
+        // open findings are replayed strictly (to see whether they still
+        // reproduce); regressions of repaired defects tolerate *other* listed
+        // findings
+        let outcome = replay_in_child(&f, rf.kind == "known");
         match (rf.kind.as_str(), outcome) {
             ("known", ReplayOutcome::Pass) => {
                 notes.push(format!(
